@@ -506,6 +506,10 @@ func (st *state) validate(instance reflect.Value, schema *Schema, callerAnns *an
 			//
 			// Note: this is much faster than comparing with falseSchema using Equal.
 			isFalsy := schema.AdditionalProperties.Not != nil && reflect.ValueOf(*schema.AdditionalProperties.Not).IsZero()
+			// In draft-07, keywords beside $ref (here "not") are ignored, so the subschema is not false.
+			if st.rs.draft == draft7 && schema.AdditionalProperties.Ref != "" {
+				isFalsy = false
+			}
 			if isFalsy {
 				var disallowed []string
 				for prop := range properties(instance) {
